@@ -35,10 +35,17 @@ func namesOf(fn *ssa.Function) NameTable {
 	for _, b := range fn.Blocks {
 		for _, in := range b.Instrs {
 			if d, ok := in.(*ssa.DebugRef); ok {
-				if id, ok := d.Expr.(*ast.Ident); ok && !seen[id.Name] {
-					seen[id.Name] = true
-					t.Locals = append(t.Locals, id.Name)
+				id, ok := d.Expr.(*ast.Ident)
+				if !ok || seen[id.Name] {
+					continue
 				}
+				// local variables only (not fields, functions, constants or package-level names)
+				v, isVar := d.Object().(*types.Var)
+				if !isVar || v.IsField() || v.Pkg() == nil || v.Parent() == v.Pkg().Scope() {
+					continue
+				}
+				seen[id.Name] = true
+				t.Locals = append(t.Locals, id.Name)
 			}
 		}
 	}
@@ -270,6 +277,10 @@ func (f *frame) assertNoAssume(kind, desc, goal string, cl *Clause, pos string) 
 		if len(cl.Props) > 0 {
 			o.Props = cl.Props
 		}
+	}
+	o.NoAssume = true
+	if o.KF == "" && !o.Bounded {
+		o.Group = x.group
 	}
 	x.vc.AddObl(o)
 }
